@@ -219,6 +219,8 @@ type supFam struct {
 	eventsOK         bool
 	t0               time.Time
 	now0             time.Duration
+	childSup         *supervisor.Supervisor // the instance shared by the children (also by a sibling spawned later)
+	childCfg         *supCfg
 }
 
 type obsAct struct {
@@ -318,6 +320,7 @@ func (f *supFam) build(nch int, parentCfg, childCfg *supCfg, mbs []sysMailbox) b
 	}
 	f.acts = append(f.acts, &supActor{name: "parent", parent: 0, cfg: parentCfg, probe: pp, pid: ppid})
 	sup := childCfg.mk() // one shared instance, as users typically do
+	f.childSup, f.childCfg = sup, childCfg
 	for i := 0; i < nch; i++ {
 		name := fmt.Sprintf("c%d", i)
 		cp := s.NewProbe(name)
@@ -332,6 +335,19 @@ func (f *supFam) build(nch int, parentCfg, childCfg *supCfg, mbs []sysMailbox) b
 		}
 		f.acts = append(f.acts, &supActor{name: name, parent: 1, cfg: childCfg, probe: cp, pid: cpid})
 	}
+	return true
+}
+
+// spawnLate adds one more child under the same parent and supervisor while the run is under way: its
+// consecutive-fault counter starts at zero while its siblings already carry faults.
+func (f *supFam) spawnLate() bool {
+	name := fmt.Sprintf("c%d", len(f.acts)-2)
+	cp := f.s.NewProbe(name)
+	cpid, err := f.acts[1].pid.SpawnChild(f.s.Ctx, name, cp, actor.WithLongLived(), actor.WithSupervisor(f.childSup))
+	if err != nil {
+		return false
+	}
+	f.acts = append(f.acts, &supActor{name: name, parent: 1, cfg: f.childCfg, probe: cp, pid: cpid})
 	return true
 }
 
@@ -482,7 +498,8 @@ func (o *supOracle) die(p *supPath, at int, class, comp, format string, args ...
 		}
 		d.class, d.comp, d.detail = "overlapping-restarts", st, class+"/"+comp+": "+d.detail
 	}
-	if o.best == nil || d.at > o.best.at {
+	// ties: a path on which restarts overlapped and that explains the run equally far wins (known family)
+	if o.best == nil || d.at > o.best.at || (d.at == o.best.at && d.class == "overlapping-restarts" && o.best.class != "overlapping-restarts") {
 		o.best = d
 	}
 }
@@ -609,7 +626,7 @@ func (o *supOracle) effective(p *supPath, x, kind, tag int, t time.Duration) {
 		delay := g.refBackoff(n)
 		p.trace = append(p.trace, fmt.Sprintf("  fault %d: restart of %v due at %v (delay %d ns)", n, group, t+delay, int64(delay)))
 		for _, m := range group {
-			if m != x && p.a[m].lastRe >= 0 && t-p.a[m].lastRe < 15*time.Millisecond {
+			if m != x && (p.inProgress(m, t) || (p.a[m].lastRe >= 0 && t-p.a[m].lastRe < 15*time.Millisecond)) {
 				// the sibling's previous restart is barely over (it leaves the actor tree while it restarts)
 				p.overlap = true
 			}
@@ -797,11 +814,20 @@ func (o *supOracle) step(p *supPath, e Ev) []*supPath {
 			}
 			p2.trace = append(p2.trace, fmt.Sprintf("t=%v failure of %s (tag %d) while it is being stopped: suspended first", t, e.Actor, e.Tag))
 			return []*supPath{p, p2}
-		default:
-			if a.st == stSusp && a.suspAt == t && f.acts[x].cfg.refDirective(kind) != dResume {
-				// suspended with its group at this very instant: its own failure may suspend it once more
+		case a.st == stSusp && a.suspAt == t && !inProg:
+			// suspended with its group at this very instant: it may still have been running when it failed; then
+			// its own failure is served as well, with its own consecutive-fault count
+			p2 := p.clone()
+			if f.acts[x].cfg.refDirective(kind) != dResume {
 				a.nSuspOpt++
 			}
+			p.trace = append(p.trace, fmt.Sprintf("t=%v failure of %s (tag %d), suspended with its group at this instant: ignored", t, e.Actor, e.Tag))
+			p2.a[x].st = stRun
+			p2.a[x].nSusp--
+			p2.a[x].nSuspOpt++
+			o.effective(p2, x, kind, e.Tag, t)
+			return []*supPath{p, p2}
+		default:
 			p.trace = append(p.trace, fmt.Sprintf("t=%v failure of %s %s (tag %d): ignored", t, stNames[a.st], e.Actor, e.Tag))
 			return []*supPath{p}
 		}
@@ -871,6 +897,9 @@ func (o *supOracle) step(p *supPath, e Ev) []*supPath {
 			}
 		}
 		for i := range p.a {
+			if i >= len(ob.Acts) {
+				break // spawned after this snapshot
+			}
 			a, oa := &p.a[i], ob.Acts[i]
 			name := f.acts[i].name
 			comp := a.comp
@@ -900,6 +929,9 @@ func (o *supOracle) step(p *supPath, e Ev) []*supPath {
 		}
 		// restart counts last and without ending the replay: a separate, narrower class
 		for i := range p.a {
+			if i >= len(ob.Acts) {
+				break
+			}
 			a, oa := &p.a[i], ob.Acts[i]
 			if p.soft == nil && a.st != stStop && oa.Restarts != a.restarts {
 				how := "count-high"
@@ -1159,6 +1191,16 @@ func c07Run(mode int) func(c *Ctx) {
 				}
 			}
 		}
+		// budget-window: in half of the one-for-all runs one more sibling joins the group after its first
+		// fault(s), so the members' consecutive-fault counters differ; a 1 s window keeps the old counts alive
+		late, lateStep := false, 0
+		if mode == 1 && childCfg.OneForAll && c.W.Draw(2) == 1 {
+			late, lateStep = true, 1+c.W.Draw(3)
+			childCfg.Timeout = time.Second
+			if childCfg.HasBackoff {
+				childCfg.Reset = time.Second
+			}
+		}
 		parentCfg := genSupCfg(c, true, false)
 		parentCfg.OneForAll = false
 		// the parent reacts to an escalated failure by failing itself only when no child restart can be
@@ -1170,6 +1212,7 @@ func c07Run(mode int) func(c *Ctx) {
 			chain = f.react != 0
 		}
 		c.Note("children", nch)
+		c.Note("late_sibling", late)
 		c.Note("child_supervisor", childCfg.String())
 		c.Note("parent_supervisor", parentCfg.String())
 		c.Note("parent_reaction", []string{"ignore", "ctx.Err", "panic"}[f.react])
@@ -1183,14 +1226,28 @@ func c07Run(mode int) func(c *Ctx) {
 		lastFault := time.Duration(-1)
 		lastKind := -1
 		mixed := false // the previous step queued failures of different kinds at one instant
-		group := childCfg.OneForAll && nch > 1
+		group := childCfg.OneForAll && (nch > 1 || late)
+		nchNow := nch
 		nsteps := 2 + c.W.Draw(7)
+		if late {
+			nsteps += 2
+		}
 		done := false
 		injector := func() {
 			seq := 0
 			for k := 0; k < nsteps && !c.Failed(); k++ {
+				if late && k == lateStep && lastFault >= 0 && f.status(1) == stRun {
+					Sleep(childCfg.maxDelay() + 40*time.Millisecond + 300*time.Microsecond) // no restart in progress
+					if f.spawnLate() {
+						nchNow++
+						c.Probe("late-sibling")
+					}
+				}
 				// --- spacing
 				gapKind := c.W.Draw(6)
+				if late && gapKind == 0 {
+					gapKind = 2 // stay inside the window
+				}
 				if chain {
 					gapKind = 0
 				}
@@ -1248,7 +1305,7 @@ func c07Run(mode int) func(c *Ctx) {
 					}
 				}
 				// --- action
-				target := 2 + c.W.Draw(nch)
+				target := 2 + c.W.Draw(nchNow)
 				kind := c.W.Draw(4)
 				if gapKind == 1 && lastKind >= 0 {
 					// failures at one instant that call for different directives: the order in which the
@@ -1258,6 +1315,9 @@ func c07Run(mode int) func(c *Ctx) {
 				lastKind = kind
 				subk := c.W.Draw(3)
 				act := c.W.Draw(9)
+				if late && act == 6 {
+					act = 0 // members' counters differ: which of two simultaneous failures the parent serves first decides the outcome
+				}
 				if chain && (act == 5 || act == 6) {
 					act = 0 // two escalations at one instant: the second finds the parent suspended by its own reaction
 				}
@@ -1277,8 +1337,8 @@ func c07Run(mode int) func(c *Ctx) {
 					lastFault = Now()
 					f.fault(target, kind, subk, 0, seq)
 					seq++
-					if nch > 1 {
-						other := 2 + (target-2+1+c.W.Draw(nch-1))%nch
+					if nchNow > 1 {
+						other := 2 + (target-2+1+c.W.Draw(nchNow-1))%nchNow
 						f.fault(other, kind, subk, 0, seq)
 						seq++
 						c.Probe("sibling-faults")
